@@ -49,7 +49,7 @@ class Ctx:
         base = self.engine()
         return Engine(base.mir, base.src)
 
-    def explore(self, name, scenario, max_paths=20000, time_limit=None, allow_panic=None, engine_setup=None):
+    def explore(self, name, scenario, max_paths=20000, time_limit=None, allow_panic=None, engine_setup=None, budget_violation=None):
         """run a scenario function under the executor; the scenario calls ctx.require(...) itself.
         Panic paths are violations of clause 'no-panic' unless allow_panic(path) says the panic is expected."""
         e = self.fresh_engine()
@@ -69,9 +69,26 @@ class Ctx:
                 m = e.model_of(p)
                 wit = {'panic': p.msg, 'where': p.where, 'inputs': self._model_inputs(m)}
                 slug = re.sub(r'[^a-z]+', '-', (p.msg or '').lower().replace('assertion failed:', '').replace('attempt to compute', '').replace('which would overflow', 'overflow'))[:40].strip('-')
+                rp = p.notes.get('replay')
+                if p.notes.get('replay_fn') and m is not None:
+                    try: rp = p.notes['replay_fn'](m)
+                    except Exception as ex:
+                        print('[replay_fn] %s: %s' % (type(ex).__name__, ex), file=sys.stderr); rp = None
                 self.violations.append({'clause': 'no-panic', 'key': 'panic:' + (p.where or '').split(' <- ')[0] + ':' + slug, 'scenario': name,
-                                        'witness': wit, 'replay': p.notes.get('replay')})
+                                        'witness': wit, 'replay': rp})
             elif p.kind == 'budget':
+                if budget_violation and 'loop budget' in (p.msg or ''):
+                    # a loop whose trip count is still solver-controlled after the budget: unbounded in the input size
+                    self.obligations += 1
+                    m = e.model_of(p)
+                    wit = {'budget': p.msg, 'where': p.where, 'inputs': self._model_inputs(m)}
+                    rp = p.notes.get('replay')
+                    if p.notes.get('replay_fn') and m is not None:
+                        try: rp = p.notes['replay_fn'](m)
+                        except Exception: rp = None
+                    self.violations.append({'clause': 'time-bounded-by-request-size', 'key': budget_violation + ':' + (p.where or '').split(' <- ')[0],
+                                            'scenario': name, 'witness': wit, 'replay': rp})
+                    continue
                 raise Inconclusive('scenario %s: %s @ %s' % (name, p.msg, p.where))
         self.paths += len(res); self.queries += e.stats['queries']; self.solver_s += e.solver_s
         self.nontrivial += sum(1 for p in res if p.decisions or p.pc)
